@@ -668,5 +668,263 @@ class LiteralListItem(Contract):
                                                                                          g['inner_args'] == V.Tuple(mklist(A['parent_node'], n, A['ctx'], vs, A['path'])))))]
 
 
-CONTRACTS = [ArgumentCoercer(), CoerceArguments(), GetLiteralCoercer(), LiteralScalarBody(), LiteralEnumBody(), LiteralListItem(), IsMissingVariable(), NullAndVariableWrapper(), LiteralNonNull(), LiteralDirectives(), LiteralInputFieldValue()]
+
+# ---- literal list coercer: ListValue literals item by item, single values promoted to one-element lists (GraphQL 3.11 input coercion)
+Lit_ok = z3.Function('LiteralCoercionOk', V, V, V, BoolS)        # (inner literal coercer closure, value node, variables): no error list
+Lit_val = z3.Function('LiteralCoercionValue', V, V, V, V)        # its value (UNDEFINED = invalid literal)
+
+
+def it_invalid(c, n, vs, nn):
+    return z3.If(missing_variable(n, vs), nn, z3.And(Lit_ok(c, n, vs), Lit_val(c, n, vs) == V.Undef))
+
+
+def it_ok(c, n, vs):
+    return z3.If(missing_variable(n, vs), True, Lit_ok(c, n, vs))
+
+
+def it_val(c, n, vs):
+    return z3.If(missing_variable(n, vs), V.None_, Lit_val(c, n, vs))
+
+
+AnyInv = z3.RecFunction('SomeItemInvalidUpTo', V, VL, V, BoolS, IntS, BoolS)
+AllOkL = z3.RecFunction('AllItemsOkUpTo', V, VL, V, IntS, BoolS)
+ValsL = z3.RecFunction('ItemValuesUpTo', V, VL, V, IntS, VL)
+_c, _vs2 = z3.Consts('li_c li_vs', V)
+_ns2 = z3.Const('li_ns', VL)
+_nn = z3.Bool('li_nn')
+_k2 = z3.Int('li_k')
+_anyinv = lambda c, ns, vs, nn, k: z3.If(k <= 0, False, z3.Or(AnyInv(c, ns, vs, nn, k - 1), it_invalid(c, nth(ns, k - 1), vs, nn)))
+_allokl = lambda c, ns, vs, k: z3.If(k <= 0, True, z3.And(AllOkL(c, ns, vs, k - 1), it_ok(c, nth(ns, k - 1), vs)))
+_valsl = lambda c, ns, vs, k: z3.If(k <= 0, VL.nil, snoc(ValsL(c, ns, vs, k - 1), it_val(c, nth(ns, k - 1), vs)))
+z3.RecAddDefinition(AnyInv, [_c, _ns2, _vs2, _nn, _k2], _anyinv(_c, _ns2, _vs2, _nn, _k2))
+z3.RecAddDefinition(AllOkL, [_c, _ns2, _vs2, _k2], _allokl(_c, _ns2, _vs2, _k2))
+z3.RecAddDefinition(ValsL, [_c, _ns2, _vs2, _k2], _valsl(_c, _ns2, _vs2, _k2))
+UNFOLD['SomeItemInvalidUpTo'] = _anyinv
+UNFOLD['AllItemsOkUpTo'] = _allokl
+UNFOLD['ItemValuesUpTo'] = _valsl
+NoInvalidItem = ForallList('item_not_invalid', lambda n, c, vs, nnv: z3.Not(it_invalid(c, n, vs, V.b(nnv))), param_sorts=[V, V, V])
+AllItemNodes = ForallList('list_item_node', lambda n: z3.And(inst(n, 'ValueNode'), ast_node(n), variable_node_wf(n)))
+
+
+class LiteralListBody(Contract):
+    """literal list_coercer: a list literal is invalid iff some item is (a missing variable counts as null: invalid only for non-null items);
+    otherwise its items' values in order, or their errors; a non-list literal is coerced as the single item of a one-element list"""
+    key = L + 'list_coercer.py::list_coercer'
+    decorators = ['null_and_variable_coercer_wrapper']
+    property_ids = ('C05',)
+    params = ['parent_node', 'node', 'ctx', 'is_non_null_item_type', 'inner_coercer', 'variables', 'path']
+    inline = (L + 'list_coercer.py::list_item_coercer',)
+
+    def args(self, en, names):
+        self.A = super().args(en, names)
+        return self.A
+
+    def pre(self, A, st):
+        n = A['node']
+        return [('node', z3.And(inst(n, 'ValueNode'), ast_node(n), z3.Implies(exact(n, 'ListValueNode'), z3.And(V.is_List(attr0(n, 'values')), AllItemNodes(V.items(attr0(n, 'values'))))))),
+                ('variables', variables_ok(A['variables'])), ('flag', V.is_Bool(A['is_non_null_item_type'])), ('inner', V.is_Fun(A['inner_coercer'])),
+                ('path', z3.Or(A['path'] == V.None_, z3.And(exact(A['path'], 'Path'), V.oref(A['path']) >= 0)))]
+
+    def call_model(self, en, st, f, a, kw):
+        if z3.eq(f, self.A['inner_coercer']):
+            if len(a) != 3 or 'variables' not in kw:
+                return None
+            n, vs = en.read(a[1], st), en.read(kw['variables'], st)
+            st2, cr = new_cr(en, st, Lit_ok(f, n, vs), Lit_val(f, n, vs))
+            return [(st2, cr)]
+        return None
+
+    def _inv(self, en, st, k, st0):
+        A = self.A
+        c, ns, vs, nn = A['inner_coercer'], V.items(attr0(A['node'], 'values')), A['variables'], V.b(A['is_non_null_item_type'])
+        errors = V.items(en.read(st.env['errors'], st))
+        vals_ = V.items(en.read(st.env['coerced_values'], st))
+        return {'no_invalid_item_so_far': NoInvalidItem(take(ns, k), c, vs, A['is_non_null_item_type']), 'errors_iff_bad_prefix': VL.is_nil(errors) == AllOkL(c, ns, vs, k),
+                'values_are_prefix': z3.Implies(VL.is_nil(errors), vals_ == ValsL(c, ns, vs, k))}
+
+    @property
+    def loops(self):
+        return {0: LoopContract(self._inv)}
+
+    def post(self, A, st0, out):
+        if out.kind == 'raise':
+            return never_raises(out)
+        c, n, vs, nn, r, st = A['inner_coercer'], A['node'], A['variables'], V.b(A['is_non_null_item_type']), out.value, out.st
+        ns = V.items(attr0(n, 'values'))
+        m = length(ns)
+        invalid = z3.And(exact(r, 'CoercionResult'), cr_ok(st, r), cr_value(st, r) == V.Undef)
+        is_list = exact(n, 'ListValueNode')
+        none_invalid = NoInvalidItem(ns, c, vs, A['is_non_null_item_type'])
+        return [('list_literal_invalid_iff_some_item_is', z3.Implies(is_list, invalid == z3.Not(none_invalid))),
+                ('list_literal_items_in_order', z3.Implies(z3.And(is_list, none_invalid),
+                                                           z3.And(exact(r, 'CoercionResult'), cr_ok(st, r) == AllOkL(c, ns, vs, m),
+                                                                  z3.Implies(AllOkL(c, ns, vs, m), cr_value(st, r) == V.List(ValsL(c, ns, vs, m)))))),
+                ('single_value_promoted', z3.Implies(z3.Not(is_list), z3.If(z3.And(Lit_ok(c, n, vs), Lit_val(c, n, vs) == V.Undef), invalid,
+                                                                            z3.And(exact(r, 'CoercionResult'), cr_ok(st, r) == Lit_ok(c, n, vs),
+                                                                                   z3.Implies(Lit_ok(c, n, vs), cr_value(st, r) == V.List(mklist(Lit_val(c, n, vs))))))))]
+
+
+
+# ---- literal input-object coercer (GraphQL 3.10): declared fields one by one, undeclared entries make the literal invalid
+FieldMap = z3.RecFunction('ObjectFieldNodesByNameUpTo', VL, IntS, VL)       # {field_node.name.value: field_node}
+_fmap = lambda ns, k: z3.If(k <= 0, VL.nil, assoc_set(FieldMap(ns, k - 1), arg_name_of(nth(ns, k - 1)), nth(ns, k - 1)))
+z3.RecAddDefinition(FieldMap, [_an, _ak], _fmap(_an, _ak))
+UNFOLD['ObjectFieldNodesByNameUpTo'] = _fmap
+
+
+def obj_field_node_wf(n):
+    val = attr0(n, 'value')
+    return z3.And(exact(n, 'ObjectFieldNode'), V.oref(n) >= 0, exact(attr0(n, 'name'), 'NameNode'), V.oref(attr0(n, 'name')) >= 0, V.is_Str(arg_name_of(n)),
+                  inst(val, 'ValueNode'), ast_node(val), variable_node_wf(val))
+
+
+AllObjFieldNodes = ForallList('object_field_node', obj_field_node_wf)
+AllFieldMapEntries = ForallList('object_field_map_entry', lambda p: z3.And(V.is_Pair(p), V.is_Str(V.fst(p)), obj_field_node_wf(V.snd(p))))
+AllKnownNames = ForallList('entry_name_is_declared', lambda p, fields: lookup(fields, V.fst(p)) != V.Missing, param_sorts=[VL])
+
+
+def in_field_wf(p):
+    f = V.snd(p)
+    return z3.And(V.is_Pair(p), V.is_Str(V.fst(p)), exact(f, 'GraphQLInputField'), V.oref(f) >= 0, V.is_Fun(attr0(f, 'literal_coercer')),
+                  inst(attr0(f, 'graphql_type'), 'GraphQLType'), V.oref(attr0(f, 'graphql_type')) >= 0,
+                  z3.Or(attr0(f, 'default_value') == V.None_, z3.And(inst(attr0(f, 'default_value'), 'ValueNode'), ast_node(attr0(f, 'default_value')))))
+
+
+AllInFields = ForallList('literal_input_field_entry', in_field_wf)
+
+
+def _entry(p, fm):
+    v = lookup(fm, V.fst(p))
+    return z3.If(v == V.Missing, V.Undef, v)
+
+
+def fl_no_value(p, fm, vs):
+    vn = _entry(p, fm)
+    return z3.Or(vn == V.Undef, missing_variable(attr0(vn, 'value'), vs))
+
+
+def fl_node(p, fm, vs):
+    return z3.If(fl_no_value(p, fm, vs), attr0(V.snd(p), 'default_value'), attr0(_entry(p, fm), 'value'))
+
+
+def fl_coerced(p, fm, vs):
+    return z3.Or(z3.Not(fl_no_value(p, fm, vs)), attr0(V.snd(p), 'default_value') != V.None_)
+
+
+def fl_skip(p, fm, vs):
+    return z3.And(z3.Not(fl_coerced(p, fm, vs)), z3.Not(inst(attr0(V.snd(p), 'graphql_type'), 'GraphQLNonNull')))
+
+
+def _lc(p):
+    return attr0(V.snd(p), 'literal_coercer')
+
+
+def fl_invalid(p, fm, vs):
+    n = fl_node(p, fm, vs)
+    return z3.If(fl_coerced(p, fm, vs), z3.And(Lit_ok(_lc(p), n, vs), Lit_val(_lc(p), n, vs) == V.Undef), inst(attr0(V.snd(p), 'graphql_type'), 'GraphQLNonNull'))
+
+
+def fl_ok(p, fm, vs):
+    return z3.If(fl_coerced(p, fm, vs), Lit_ok(_lc(p), fl_node(p, fm, vs), vs), True)
+
+
+NoInvalidField = ForallList('field_not_invalid', lambda p, fm, vs: z3.Not(fl_invalid(p, fm, vs)), param_sorts=[VL, V])
+AllFOkL = z3.RecFunction('AllLiteralFieldsOkUpTo', VL, VL, V, IntS, BoolS)
+FValsL = z3.RecFunction('LiteralFieldValuesUpTo', VL, VL, V, IntS, VL)
+_fl, _fm = z3.Consts('lf_fields lf_map', VL)
+_allfok = lambda fl_, fm, vs, k: z3.If(k <= 0, True, z3.And(AllFOkL(fl_, fm, vs, k - 1), fl_ok(nth(fl_, k - 1), fm, vs)))
+_fvals = lambda fl_, fm, vs, k: z3.If(k <= 0, VL.nil, z3.If(fl_skip(nth(fl_, k - 1), fm, vs), FValsL(fl_, fm, vs, k - 1),
+                                                          assoc_set(FValsL(fl_, fm, vs, k - 1), V.fst(nth(fl_, k - 1)),
+                                                                    Lit_val(_lc(nth(fl_, k - 1)), fl_node(nth(fl_, k - 1), fm, vs), vs))))
+z3.RecAddDefinition(AllFOkL, [_fl, _fm, _vs2, _k2], _allfok(_fl, _fm, _vs2, _k2))
+z3.RecAddDefinition(FValsL, [_fl, _fm, _vs2, _k2], _fvals(_fl, _fm, _vs2, _k2))
+UNFOLD['AllLiteralFieldsOkUpTo'] = _allfok
+UNFOLD['LiteralFieldValuesUpTo'] = _fvals
+
+
+class LiteralInputObjectBody(Contract):
+    """literal input_object_coercer: only object literals; a literal naming an entry the input type does not declare is invalid (as on the
+    variable path); otherwise each DECLARED field contributes by the per-field rule (entry / default / invalid / skipped) and the literal is invalid
+    iff some field is; values keyed by field name"""
+    key = L + 'input_object_coercer.py::input_object_coercer'
+    decorators = ['null_and_variable_coercer_wrapper']
+    property_ids = ('C05', 'C13')
+    params = ['parent_node', 'node', 'ctx', 'input_object_type', 'variables', 'path']
+    inline = (L + 'input_object_coercer.py::input_field_value_coercer',)
+
+    def args(self, en, names):
+        self.A = super().args(en, names)
+        return self.A
+
+    def pre(self, A, st):
+        n, t = A['node'], A['input_object_type']
+        return [('node', z3.And(inst(n, 'ValueNode'), ast_node(n), z3.Implies(exact(n, 'ObjectValueNode'), z3.And(V.is_List(attr0(n, 'fields')), AllObjFieldNodes(V.items(attr0(n, 'fields'))))))),
+                ('input_object_type', z3.And(exact(t, 'GraphQLInputObjectType'), V.oref(t) >= 0, V.is_Dict(attr0(t, 'input_fields')), AllInFields(V.ditems(attr0(t, 'input_fields'))))),
+                ('variables', variables_ok(A['variables'])), ('path', z3.Or(A['path'] == V.None_, z3.And(exact(A['path'], 'Path'), V.oref(A['path']) >= 0)))]
+
+    def call_model(self, en, st, f, a, kw):
+        f = z3.simplify(f)
+        if z3.is_app(f) and f.decl().kind() == z3.Z3_OP_SELECT and f.arg(0).eq(field0('literal_coercer')):
+            if len(a) != 3 or 'variables' not in kw:
+                return None
+            n, vs = en.read(a[1], st), en.read(kw['variables'], st)
+            st2, cr = new_cr(en, st, Lit_ok(f, n, vs), Lit_val(f, n, vs))
+            return [(st2, cr)]
+        return None
+
+    def _nodes(self):
+        return V.items(attr0(self.A['node'], 'fields'))
+
+    def _fm(self):
+        ns = self._nodes()
+        return FieldMap(ns, length(ns))
+
+    def _fields(self):
+        return V.ditems(attr0(self.A['input_object_type'], 'input_fields'))
+
+    def _invd(self, en, st, k, st0):
+        d = en.read(st.env['__dictcomp0'], st)
+        return {'entries_by_name': d == V.Dict(FieldMap(self._nodes(), k)), 'entries_are_field_nodes': AllFieldMapEntries(V.ditems(d))}
+
+    def _cur_fm(self, en, st):
+        return V.ditems(en.read(st.env['field_nodes'], st))      # == FieldMap(nodes, n) by the comprehension's invariant (kept as a path fact)
+
+    def _inv_known(self, en, st, k, st0):
+        return {'names_so_far_are_declared': AllKnownNames(take(self._cur_fm(en, st), k), self._fields())}
+
+    def _inv(self, en, st, k, st0):
+        fields, fm, vs = self._fields(), self._cur_fm(en, st), self.A['variables']
+        errors = V.items(en.read(st.env['errors'], st))
+        cv = en.read(st.env['coerced_values'], st)
+        return {'no_invalid_field_so_far': NoInvalidField(take(fields, k), fm, vs), 'errors_iff_bad_prefix': VL.is_nil(errors) == AllFOkL(fields, fm, vs, k),
+                'values_by_name': z3.Implies(VL.is_nil(errors), cv == V.Dict(FValsL(fields, fm, vs, k)))}
+
+    @property
+    def loops(self):
+        # the zip loop is the LAST for-loop of the body; a loop before it (the undeclared-entry scan) gets the known-names invariant
+        import ast as _ast
+        node, _ = T.functions[self.key]
+        fors = [x for x in node.body if isinstance(x, _ast.For)]
+        if len(fors) >= 2:
+            return {('dictcomp', 0): LoopContract(self._invd), 0: LoopContract(self._inv_known), 1: LoopContract(self._inv)}
+        return {('dictcomp', 0): LoopContract(self._invd), 0: LoopContract(self._inv)}
+
+    def post(self, A, st0, out):
+        if out.kind == 'raise':
+            return never_raises(out)
+        n, vs, r, st = A['node'], A['variables'], out.value, out.st
+        ns = V.items(attr0(n, 'fields'))
+        fm = FieldMap(ns, length(ns))
+        fields = V.ditems(attr0(A['input_object_type'], 'input_fields'))
+        m = length(fields)
+        invalid = z3.And(exact(r, 'CoercionResult'), cr_ok(st, r), cr_value(st, r) == V.Undef)
+        is_obj = exact(n, 'ObjectValueNode')
+        good = z3.And(AllKnownNames(fm, fields), NoInvalidField(fields, fm, vs))
+        return [('only_object_literals', z3.Implies(z3.Not(is_obj), invalid)),
+                ('invalid_iff_undeclared_entry_or_invalid_field', z3.Implies(is_obj, invalid == z3.Not(good))),
+                ('declared_fields_by_name', z3.Implies(z3.And(is_obj, good), z3.And(exact(r, 'CoercionResult'), cr_ok(st, r) == AllFOkL(fields, fm, vs, m),
+                                                                                    z3.Implies(AllFOkL(fields, fm, vs, m), cr_value(st, r) == V.Dict(FValsL(fields, fm, vs, m))))))]
+
+
+CONTRACTS = [ArgumentCoercer(), CoerceArguments(), GetLiteralCoercer(), LiteralScalarBody(), LiteralEnumBody(), LiteralListItem(), LiteralListBody(), LiteralInputObjectBody(), IsMissingVariable(), NullAndVariableWrapper(), LiteralNonNull(), LiteralDirectives(), LiteralInputFieldValue()]
 LEMMAS = []
